@@ -1,3 +1,4 @@
+import Gtree.Generated.Facts
 /-
   The JSON text gtree prints for a formatted tree, and a JSON reader.
 
@@ -61,10 +62,17 @@ def quote (s : List Char) : List Char := '"' :: escape s ++ ['"']
 inductive CT where
   | mk (value : List Char) (children : List CT)
 
+/-- the keys of the two fields of `jsonNode`, from the struct tags in the sources (regenerated facts);
+    the empty string for a field the sources no longer have -/
+def keyOf (i : Nat) : List Char :=
+  ((((Facts.formattedTags.lookup "simple_tree_spreader.go:jsonNode").getD []).getD i "")).toList
+def valueKey : List Char := keyOf 0
+def childrenKey : List Char := keyOf 1
+
 mutual
 /-- the JSON value of `jsonNode{Name "value"; Children "children"}`: `children` is `null` for a leaf (nil slice) -/
 def CT.toJ : CT → J
-  | .mk v cs => .obj (.cons "value".toList (.str v) (.cons "children".toList (CT.kidsToJ cs) .nil))
+  | .mk v cs => .obj (.cons valueKey (.str v) (.cons childrenKey (CT.kidsToJ cs) .nil))
 def CT.kidsToJ : List CT → J
   | [] => .null
   | c :: cs => .arr (.cons c.toJ (CT.kidsToJs cs))
@@ -193,7 +201,7 @@ mutual
 /-- read a decoded `{"value": …, "children": …}` record back as a tree; `null` and `[]` both mean no children -/
 def J.toCT : J → Option CT
   | .obj (.cons k1 (.str v) (.cons k2 kids .nil)) =>
-    if k1 = "value".toList ∧ k2 = "children".toList then
+    if k1 = valueKey ∧ k2 = childrenKey then
       match kids with
       | .null => some (.mk v [])
       | .arr xs => (JL.toCTs xs).map (CT.mk v)
